@@ -1,5 +1,785 @@
 import RV.Model.DepSync
 import RV.Oracle.C17
 import RV.Lemmas.Arith
+/-! Helper lemmas about the advanced-deployment sync model. -/
 namespace RV.DepSync
+open RV.Arith RV.Oracle.C17
+
+/-! ### sums, sorting, filtering -/
+
+@[simp] theorem sumBy_nil (f : RS → Int) : sumBy f [] = 0 := rfl
+@[simp] theorem sumBy_cons (f : RS → Int) (r : RS) (l : List RS) : sumBy f (r :: l) = f r + sumBy f l := rfl
+
+theorem sumBy_append (f : RS → Int) (l₁ l₂ : List RS) : sumBy f (l₁ ++ l₂) = sumBy f l₁ + sumBy f l₂ := by
+  induction l₁ with
+  | nil => simp
+  | cons r l ih => simp [ih]; omega
+
+theorem sumBy_insertBy (f : RS → Int) (lt : RS → RS → Bool) (x : RS) (l : List RS) :
+    sumBy f (insertBy lt x l) = f x + sumBy f l := by
+  induction l with
+  | nil => simp [insertBy]
+  | cons y ys ih =>
+    simp only [insertBy]; split
+    · simp [ih]; omega
+    · simp
+
+theorem sumBy_sortBy (f : RS → Int) (lt : RS → RS → Bool) (l : List RS) :
+    sumBy f (sortBy lt l) = sumBy f l := by
+  induction l with
+  | nil => rfl
+  | cons x xs ih => simp [sortBy, sumBy_insertBy, ih]
+
+theorem mem_insertBy {lt : RS → RS → Bool} {x r : RS} {l : List RS} :
+    r ∈ insertBy lt x l ↔ r = x ∨ r ∈ l := by
+  induction l with
+  | nil => simp [insertBy]
+  | cons y ys ih =>
+    simp only [insertBy]; split
+    · simp [ih]; constructor
+      · rintro (h | h | h) <;> simp [h]
+      · rintro (h | h | h) <;> simp [h]
+    · simp
+
+theorem mem_sortBy {lt : RS → RS → Bool} {r : RS} {l : List RS} : r ∈ sortBy lt l ↔ r ∈ l := by
+  induction l with
+  | nil => simp [sortBy]
+  | cons x xs ih => simp [sortBy, mem_insertBy, ih]
+
+theorem sumBy_active_inactive (f : RS → Int) (l : List RS) :
+    sumBy f (active l) + sumBy f (inactive l) = sumBy f l := by
+  induction l with
+  | nil => rfl
+  | cons r rs ih =>
+    simp only [active, inactive, List.filter_cons] at *
+    by_cases h : 0 < r.spec <;> simp [h] <;> omega
+
+theorem sumSpec_inactive_nonpos (l : List RS) : sumSpec (inactive l) ≤ 0 := by
+  induction l with
+  | nil => simp [inactive, sumSpec]
+  | cons r rs ih =>
+    simp only [inactive, sumSpec, List.filter_cons] at *
+    by_cases h : 0 < r.spec <;> simp [h] <;> omega
+
+theorem sumSpec_inactive_zero (l : List RS) (h : ∀ r ∈ l, 0 ≤ r.spec) : sumSpec (inactive l) = 0 := by
+  induction l with
+  | nil => simp [inactive, sumSpec]
+  | cons r rs ih =>
+    have h1 := h r (by simp)
+    have ih := ih (fun x hx => h x (by simp [hx]))
+    simp only [inactive, sumSpec, List.filter_cons] at *
+    by_cases hp : 0 < r.spec <;> simp [hp] <;> omega
+
+theorem sumSpec_active (l : List RS) (h : ∀ r ∈ l, 0 ≤ r.spec) : sumSpec (active l) = sumSpec l := by
+  have := sumBy_active_inactive (·.spec) l
+  have := sumSpec_inactive_zero l h
+  simp only [sumSpec] at *; omega
+
+theorem sumBy_nonneg (f : RS → Int) (l : List RS) (h : ∀ r ∈ l, 0 ≤ f r) : 0 ≤ sumBy f l := by
+  induction l with
+  | nil => simp
+  | cons r rs ih =>
+    have := h r (by simp)
+    have := ih (fun x hx => h x (by simp [hx]))
+    simp; omega
+
+theorem mem_active {r : RS} {l : List RS} : r ∈ active l → r ∈ l := by
+  simp only [active, List.mem_filter]; exact fun h => h.1
+theorem mem_inactive {r : RS} {l : List RS} : r ∈ inactive l → r ∈ l := by
+  simp only [inactive, List.mem_filter]; exact fun h => h.1
+
+/-! ### configuration -/
+
+theorem limit_bounds (s : State) (h : 0 ≤ s.replicas) : 0 ≤ limit s ∧ limit s ≤ s.replicas := by
+  unfold limit newRSReplicasLimit
+  simp only []
+  split <;> (try split) <;> omega
+
+theorem scaled_nonneg_up (v : Option IntOrPct) (R : Int) (hv : fenceOk v = true) (hR : 0 ≤ R) :
+    0 ≤ (scaled (v.getD (.int 0)) R true).1 := by
+  match v with
+  | none => simp [scaled]
+  | some (.int n) => simpa [scaled, fenceOk] using hv
+  | some (.pct p) =>
+    have hp : 0 ≤ p := by simpa [fenceOk] using hv
+    simp only [Option.getD, scaled, if_true]
+    exact ceilDiv100_nonneg (Int.mul_nonneg hp hR)
+  | some .bad => simp [scaled]
+
+theorem scaled_nonneg_down (v : Option IntOrPct) (R : Int) (hv : fenceOk v = true) (hR : 0 ≤ R) :
+    0 ≤ (scaled (v.getD (.int 0)) R false).1 := by
+  match v with
+  | none => simp [scaled]
+  | some (.int n) => simpa [scaled, fenceOk] using hv
+  | some (.pct p) =>
+    have hp : 0 ≤ p := by simpa [fenceOk] using hv
+    have := Int.mul_nonneg hp hR
+    simp only [Option.getD, scaled, floorDiv100]
+    show 0 ≤ p * R / 100
+    omega
+  | some .bad => simp [scaled]
+
+theorem fenceposts_nonneg (s : State) (h : inv s = true) {a u : Int}
+    (hr : resolveFenceposts s.maxSurge s.maxUnavailable s.replicas = some (a, u)) : 0 ≤ a ∧ 0 ≤ u := by
+  simp only [inv, Bool.and_eq_true, decide_eq_true_eq] at h
+  obtain ⟨⟨⟨⟨hR, hs⟩, hu⟩, _⟩, _⟩ := h
+  have h1 := scaled_nonneg_up s.maxSurge s.replicas hs hR
+  have h2 := scaled_nonneg_down s.maxUnavailable s.replicas hu hR
+  unfold resolveFenceposts at hr
+  generalize scaled (s.maxSurge.getD (.int 0)) s.replicas true = x at *
+  generalize scaled (s.maxUnavailable.getD (.int 0)) s.replicas false = y at *
+  obtain ⟨x1, x2⟩ := x
+  obtain ⟨y1, y2⟩ := y
+  simp only [] at hr h1 h2
+  split at hr
+  · cases hr
+  · split at hr
+    · cases hr
+    · split at hr <;> (cases hr; omega)
+
+theorem maxSurgeV_nonneg (s : State) (h : inv s = true) : 0 ≤ maxSurgeV s := by
+  unfold maxSurgeV
+  split
+  · omega
+  · split
+    · omega
+    · rename_i a u hr; exact (fenceposts_nonneg s h hr).1
+
+theorem maxUnavailV_bounds (s : State) (h : inv s = true) : 0 ≤ maxUnavailV s ∧ maxUnavailV s ≤ s.replicas := by
+  have hR : 0 ≤ s.replicas := by
+    simp only [inv, Bool.and_eq_true, decide_eq_true_eq] at h; exact h.1.1.1.1
+  unfold maxUnavailV
+  split
+  · omega
+  · simp only []
+    split
+    · split <;> omega
+    · rename_i a u hr
+      have := (fenceposts_nonneg s h hr).2
+      split <;> omega
+
+theorem inv_replicas (s : State) (h : inv s = true) : 0 ≤ s.replicas := by
+  simp only [inv, Bool.and_eq_true, decide_eq_true_eq] at h; exact h.1.1.1.1
+
+theorem inv_olds (s : State) (h : inv s = true) : ∀ r ∈ s.olds, rsOk r = true := by
+  simp only [inv, Bool.and_eq_true, List.all_eq_true] at h; exact h.1.2
+
+theorem inv_new (s : State) (h : inv s = true) : ∀ r, s.new = some r → rsOk r = true := by
+  simp only [inv, Bool.and_eq_true] at h
+  intro r hr
+  have := h.2
+  simp [hr] at this; exact this
+
+theorem rsOk_iff (r : RS) : rsOk r = true ↔ 0 ≤ r.spec ∧ 0 ≤ r.avail ∧ r.avail ≤ r.pods := by
+  simp [rsOk, and_assoc]
+
+
+/-! ### scaling one ReplicaSet -/
+
+theorem scaleAndRecord_fst (s : State) (r : RS) (n : Int) :
+    (scaleAndRecord s r n).1 = r ∨
+    (scaleAndRecord s r n).1 = { r with spec := n, desired := some s.replicas, maxAnno := some (s.replicas + maxSurgeV s) } := by
+  unfold scaleAndRecord scaleReplicaSet
+  split
+  · left; rfl
+  · simp only []; split
+    · right; rfl
+    · left; rfl
+
+theorem scaleAndRecord_spec (s : State) (r : RS) (n : Int) : (scaleAndRecord s r n).1.spec = n := by
+  unfold scaleAndRecord scaleReplicaSet
+  split
+  · rename_i h; simpa using h
+  · rename_i h
+    have : (r.spec != n) = true := by simpa using h
+    simp [this]
+
+theorem scaleAndRecord_avail (s : State) (r : RS) (n : Int) : (scaleAndRecord s r n).1.avail = r.avail := by
+  rcases scaleAndRecord_fst s r n with h | h <;> rw [h]
+theorem scaleAndRecord_pods (s : State) (r : RS) (n : Int) : (scaleAndRecord s r n).1.pods = r.pods := by
+  rcases scaleAndRecord_fst s r n with h | h <;> rw [h]
+
+theorem scaleAndRecord_ok (s : State) (r : RS) (n : Int) (h : rsOk r = true) (hn : 0 ≤ n) :
+    rsOk (scaleAndRecord s r n).1 = true := by
+  rw [rsOk_iff] at *
+  rw [scaleAndRecord_spec, scaleAndRecord_avail, scaleAndRecord_pods]; omega
+
+
+/-! ### the two loops over old ReplicaSets -/
+
+/-- unhealthy pods of a list of RSs -/
+def unhealthy (l : List RS) : Int := sumBy (fun r => max 0 (r.spec - r.avail)) l
+
+theorem cleanupLoop_facts (s : State) (m : Int) : ∀ (l : List RS) (total : Int),
+    sumAvail (cleanupLoop s m l total).olds = sumAvail l ∧
+    sumPods (cleanupLoop s m l total).olds = sumPods l ∧
+    sumBy keptAvail (cleanupLoop s m l total).olds = sumBy keptAvail l ∧
+    sumSpec (cleanupLoop s m l total).olds ≤ sumSpec l ∧
+    sumSpec l - sumSpec (cleanupLoop s m l total).olds ≤ max 0 (m - total) ∧
+    sumSpec l - sumSpec (cleanupLoop s m l total).olds ≤ unhealthy l := by
+  intro l
+  induction l with
+  | nil => intro total; simp [cleanupLoop, sumAvail, sumPods, sumSpec, unhealthy]; omega
+  | cons r rest ih =>
+    intro total
+    simp only [cleanupLoop]
+    split
+    · simp [sumAvail, sumPods, sumSpec, unhealthy]
+      have := sumBy_nonneg (fun r => max 0 (r.spec - r.avail)) rest (fun x _ => by omega)
+      omega
+    · split
+      · have := ih total
+        simp only [sumAvail, sumPods, sumSpec, unhealthy, sumBy_cons] at *
+        omega
+      · split
+        · have := ih total
+          simp only [sumAvail, sumPods, sumSpec, unhealthy, sumBy_cons] at *
+          omega
+        · split
+          · simp [sumAvail, sumPods, sumSpec, unhealthy]
+            have := sumBy_nonneg (fun r => max 0 (r.spec - r.avail)) rest (fun x _ => by omega)
+            omega
+          · rename_i h1 h2 h3 h4
+            have := ih (total + min (m - total) (r.spec - r.avail))
+            have hne : r.spec ≠ r.avail := by simpa using h3
+            simp only [sumAvail, sumPods, sumSpec, unhealthy, sumBy_cons, keptAvail,
+              scaleAndRecord_spec, scaleAndRecord_avail, scaleAndRecord_pods] at *
+            omega
+
+
+theorem cleanupLoop_ok (s : State) (m : Int) : ∀ (l : List RS) (total : Int),
+    (∀ r ∈ l, rsOk r = true) → ∀ r ∈ (cleanupLoop s m l total).olds, rsOk r = true := by
+  intro l
+  induction l with
+  | nil => intro total _ r hr; simp [cleanupLoop] at hr
+  | cons x rest ih =>
+    intro total h
+    have hx := h x (by simp)
+    have hrest : ∀ r ∈ rest, rsOk r = true := fun r hr => h r (by simp [hr])
+    simp only [cleanupLoop]
+    split
+    · exact h
+    · split
+      · intro r hr
+        simp only [List.mem_cons] at hr
+        rcases hr with hr | hr
+        · rw [hr]; exact hx
+        · exact ih total hrest r hr
+      · split
+        · intro r hr
+          simp only [List.mem_cons] at hr
+          rcases hr with hr | hr
+          · rw [hr]; exact hx
+          · exact ih total hrest r hr
+        · split
+          · exact h
+          · rename_i h1 h2 h3 h4
+            intro r hr
+            simp only [List.mem_cons] at hr
+            rcases hr with hr | hr
+            · rw [hr]
+              apply scaleAndRecord_ok _ _ _ hx
+              rw [rsOk_iff] at hx
+              omega
+            · exact ih _ hrest r hr
+
+theorem scaleDownLoop_facts (s : State) (c : Int) : ∀ (l : List RS) (total : Int),
+    sumAvail (scaleDownLoop s c l total).olds = sumAvail l ∧
+    sumPods (scaleDownLoop s c l total).olds = sumPods l ∧
+    sumSpec (scaleDownLoop s c l total).olds ≤ sumSpec l ∧
+    sumSpec l - sumSpec (scaleDownLoop s c l total).olds ≤ max 0 (c - total) ∧
+    sumBy keptAvail l - (sumSpec l - sumSpec (scaleDownLoop s c l total).olds)
+      ≤ sumBy keptAvail (scaleDownLoop s c l total).olds := by
+  intro l
+  induction l with
+  | nil => intro total; simp [scaleDownLoop, sumAvail, sumPods, sumSpec]; omega
+  | cons r rest ih =>
+    intro total
+    simp only [scaleDownLoop]
+    split
+    · simp [sumAvail, sumPods, sumSpec]; omega
+    · split
+      · have := ih total
+        simp only [sumAvail, sumPods, sumSpec, sumBy_cons] at *
+        omega
+      · split
+        · simp [sumAvail, sumPods, sumSpec]; omega
+        · have := ih (total + min r.spec (c - total))
+          simp only [sumAvail, sumPods, sumSpec, sumBy_cons, keptAvail,
+            scaleAndRecord_spec, scaleAndRecord_avail, scaleAndRecord_pods] at *
+          omega
+
+theorem scaleDownLoop_ok (s : State) (c : Int) : ∀ (l : List RS) (total : Int),
+    (∀ r ∈ l, rsOk r = true) → ∀ r ∈ (scaleDownLoop s c l total).olds, rsOk r = true := by
+  intro l
+  induction l with
+  | nil => intro total _ r hr; simp [scaleDownLoop] at hr
+  | cons x rest ih =>
+    intro total h
+    have hx := h x (by simp)
+    have hrest : ∀ r ∈ rest, rsOk r = true := fun r hr => h r (by simp [hr])
+    simp only [scaleDownLoop]
+    split
+    · exact h
+    · split
+      · intro r hr
+        simp only [List.mem_cons] at hr
+        rcases hr with hr | hr
+        · rw [hr]; exact hx
+        · exact ih total hrest r hr
+      · split
+        · exact h
+        · intro r hr
+          simp only [List.mem_cons] at hr
+          rcases hr with hr | hr
+          · rw [hr]
+            apply scaleAndRecord_ok _ _ _ hx
+            rw [rsOk_iff] at hx
+            omega
+          · exact ih _ hrest r hr
+
+
+theorem length_insertBy (lt : RS → RS → Bool) (x : RS) (l : List RS) :
+    (insertBy lt x l).length = l.length + 1 := by
+  induction l with
+  | nil => simp [insertBy]
+  | cons y ys ih => simp only [insertBy]; split <;> simp [ih]
+
+theorem length_sortBy (lt : RS → RS → Bool) (l : List RS) : (sortBy lt l).length = l.length := by
+  induction l with
+  | nil => rfl
+  | cons x xs ih => simp [sortBy, length_insertBy, ih]
+
+theorem all_sortBy {lt : RS → RS → Bool} {l : List RS} {p : RS → Prop} (h : ∀ r ∈ l, p r) :
+    ∀ r ∈ sortBy lt l, p r := fun r hr => h r (mem_sortBy.mp hr)
+
+theorem unhealthy_active_le (l : List RS) : unhealthy (active l) ≤ unhealthy l := by
+  have h1 := sumBy_active_inactive (fun r => max 0 (r.spec - r.avail)) l
+  have h2 := sumBy_nonneg (fun r => max 0 (r.spec - r.avail)) (inactive l) (fun x _ => by omega)
+  simp only [unhealthy]; omega
+
+theorem kept_eq_avail (l : List RS) (h : ∀ r ∈ l, r.avail ≤ r.spec) : sumBy keptAvail l = sumAvail l := by
+  induction l with
+  | nil => rfl
+  | cons r rs ih =>
+    have := h r (by simp)
+    have := ih (fun x hx => h x (by simp [hx]))
+    simp only [sumAvail, sumBy_cons, keptAvail] at *; omega
+
+/-! ### stage lemmas -/
+
+theorem cleanup_facts (s : State) (l : List RS) (m : Int) :
+    sumAvail (cleanup s l m).olds = sumAvail l ∧
+    sumPods (cleanup s l m).olds = sumPods l ∧
+    sumBy keptAvail (cleanup s l m).olds = sumBy keptAvail l ∧
+    sumSpec (cleanup s l m).olds ≤ sumSpec l ∧
+    sumSpec l - sumSpec (cleanup s l m).olds ≤ max 0 m ∧
+    sumSpec l - sumSpec (cleanup s l m).olds ≤ unhealthy l := by
+  have := cleanupLoop_facts s m (sortBy byCreation l) 0
+  simp only [cleanup, sumAvail, sumPods, sumSpec, unhealthy, sumBy_sortBy] at *
+  omega
+
+theorem cleanup_ok (s : State) (l : List RS) (m : Int) (h : ∀ r ∈ l, rsOk r = true) :
+    ∀ r ∈ (cleanup s l m).olds, rsOk r = true :=
+  cleanupLoop_ok s m _ 0 (all_sortBy h)
+
+theorem scaleDownOld_facts (s : State) (l : List RS) (nw : RS) :
+    sumAvail (scaleDownOld s l nw).olds = sumAvail l ∧
+    sumPods (scaleDownOld s l nw).olds = sumPods l ∧
+    sumSpec (scaleDownOld s l nw).olds ≤ sumSpec l ∧
+    sumSpec l - sumSpec (scaleDownOld s l nw).olds ≤
+      max 0 (min (sumAvail l + nw.avail - (s.replicas - maxUnavailV s)) (scaleDownLimitForOld s l nw.spec)) ∧
+    sumBy keptAvail l - (sumSpec l - sumSpec (scaleDownOld s l nw).olds)
+      ≤ sumBy keptAvail (scaleDownOld s l nw).olds := by
+  unfold scaleDownOld
+  simp only []
+  split
+  · simp; omega
+  · have := scaleDownLoop_facts s
+      (min (sumAvail l + nw.avail - (s.replicas - maxUnavailV s))
+        (scaleDownLimitForOld s (sortBy bySmallerRevision l) nw.spec)) (sortBy bySmallerRevision l) 0
+    simp only [scaleDownLimitForOld, sumAvail, sumPods, sumSpec, sumBy_sortBy] at *
+    omega
+
+theorem scaleDownOld_ok (s : State) (l : List RS) (nw : RS) (h : ∀ r ∈ l, rsOk r = true) :
+    ∀ r ∈ (scaleDownOld s l nw).olds, rsOk r = true := by
+  unfold scaleDownOld
+  simp only []
+  split
+  · exact h
+  · exact scaleDownLoop_ok s _ _ 0 (all_sortBy h)
+
+theorem scaleUpOld_facts (s : State) (l : List RS) (n : Int) :
+    sumAvail (scaleUpOld s l n).2.1 = sumAvail l ∧
+    sumPods (scaleUpOld s l n).2.1 = sumPods l ∧
+    sumSpec (scaleUpOld s l n).2.1 = sumSpec l + (if n ≤ 0 ∨ l = [] then 0 else n) ∧
+    sumBy keptAvail l ≤ sumBy keptAvail (scaleUpOld s l n).2.1 := by
+  unfold scaleUpOld
+  split
+  · rename_i h
+    have : n ≤ 0 ∨ l = [] := by simpa using h
+    simp [this]
+  · rename_i h
+    have hn : ¬ (n ≤ 0 ∨ l = []) := by simpa using h
+    have hlen := length_sortBy bySizeOlder l
+    have h1 := sumBy_sortBy (·.avail) bySizeOlder l
+    have h2 := sumBy_sortBy (·.pods) bySizeOlder l
+    have h3 := sumBy_sortBy (·.spec) bySizeOlder l
+    have h4 := sumBy_sortBy keptAvail bySizeOlder l
+    split
+    · rename_i heq
+      rw [heq] at hlen
+      have : l = [] := List.eq_nil_of_length_eq_zero (by simpa using hlen.symm)
+      exact absurd (Or.inr this) hn
+    · rename_i r rest heq
+      rw [heq] at h1 h2 h3 h4
+      simp only [sumAvail, sumPods, sumSpec, sumBy_cons, keptAvail, if_neg hn,
+        scaleAndRecord_spec, scaleAndRecord_avail, scaleAndRecord_pods] at *
+      omega
+
+theorem scaleUpOld_ok (s : State) (l : List RS) (n : Int) (h : ∀ r ∈ l, rsOk r = true) :
+    ∀ r ∈ (scaleUpOld s l n).2.1, rsOk r = true := by
+  unfold scaleUpOld
+  split
+  · exact h
+  · rename_i hc
+    have hn : ¬ (n ≤ 0 ∨ l = []) := by simpa using hc
+    split
+    · exact h
+    · rename_i r rest heq
+      have hs : ∀ x ∈ r :: rest, rsOk x = true := by
+        rw [← heq]; exact all_sortBy h
+      intro x hx
+      simp only [List.mem_cons] at hx
+      rcases hx with hx | hx
+      · rw [hx]
+        have hr := hs r (by simp)
+        apply scaleAndRecord_ok _ _ _ hr
+        rw [rsOk_iff] at hr
+        omega
+      · exact hs x (by simp [hx])
+
+
+theorem active_ok {l : List RS} (h : ∀ r ∈ l, rsOk r = true) : ∀ r ∈ active l, rsOk r = true :=
+  fun r hr => h r (mem_active hr)
+theorem inactive_ok {l : List RS} (h : ∀ r ∈ l, rsOk r = true) : ∀ r ∈ inactive l, rsOk r = true :=
+  fun r hr => h r (mem_inactive hr)
+
+theorem append_ok {l₁ l₂ : List RS} (h₁ : ∀ r ∈ l₁, rsOk r = true) (h₂ : ∀ r ∈ l₂, rsOk r = true) :
+    ∀ r ∈ l₁ ++ l₂, rsOk r = true := by
+  intro r hr
+  rcases List.mem_append.mp hr with h | h
+  · exact h₁ r h
+  · exact h₂ r h
+
+theorem sumAvail_nonneg {l : List RS} (h : ∀ r ∈ l, rsOk r = true) : 0 ≤ sumAvail l :=
+  sumBy_nonneg _ l (fun r hr => ((rsOk_iff r).mp (h r hr)).2.1)
+
+theorem sumSpec_nonneg {l : List RS} (h : ∀ r ∈ l, rsOk r = true) : 0 ≤ sumSpec l :=
+  sumBy_nonneg _ l (fun r hr => ((rsOk_iff r).mp (h r hr)).1)
+
+theorem reconcileOld_ok (s : State) (l : List RS) (nw : RS) (hok : ∀ r ∈ l, rsOk r = true) :
+    ∀ r ∈ (reconcileOld s l nw).2.1, rsOk r = true := by
+  unfold reconcileOld
+  simp only []
+  split
+  · exact hok
+  · split
+    · exact append_ok (scaleUpOld_ok s _ _ (active_ok hok)) (inactive_ok hok)
+    · split
+      · exact hok
+      · split
+        · exact append_ok (cleanup_ok s _ _ (active_ok hok)) (inactive_ok hok)
+        · split
+          · exact append_ok (scaleDownOld_ok s _ _ (cleanup_ok s _ _ (active_ok hok))) (inactive_ok hok)
+          · exact append_ok (scaleDownOld_ok s _ _ (cleanup_ok s _ _ (active_ok hok))) (inactive_ok hok)
+
+theorem reconcileOld_facts (s : State) (l : List RS) (nw : RS) (hok : ∀ r ∈ l, rsOk r = true) :
+    sumAvail (reconcileOld s l nw).2.1 = sumAvail l ∧
+    sumPods (reconcileOld s l nw).2.1 = sumPods l ∧
+    min (sumSpec l) (s.replicas - max (limit s) nw.spec) ≤ sumSpec (reconcileOld s l nw).2.1 ∧
+    (0 < sumSpec l → sumSpec l < s.replicas - max (limit s) nw.spec →
+      sumSpec (reconcileOld s l nw).2.1 = s.replicas - max (limit s) nw.spec) ∧
+    sumSpec l - sumSpec (reconcileOld s l nw).2.1 ≤
+      unhealthy l + max 0 (sumAvail l + nw.avail - (s.replicas - maxUnavailV s)) ∧
+    sumBy keptAvail l - max 0 (sumAvail l + nw.avail - (s.replicas - maxUnavailV s))
+      ≤ sumBy keptAvail (reconcileOld s l nw).2.1 := by
+  have a1 := sumBy_active_inactive (·.spec) l
+  have a2 := sumBy_active_inactive (·.avail) l
+  have a3 := sumBy_active_inactive (·.pods) l
+  have a4 := sumBy_active_inactive keptAvail l
+  have i0 := sumSpec_inactive_zero l (fun r hr => ((rsOk_iff r).mp (hok r hr)).1)
+  have ia := sumAvail_nonneg (inactive_ok hok)
+  have u1 := unhealthy_active_le l
+  have u0 : 0 ≤ unhealthy l := sumBy_nonneg _ l (fun x _ => by omega)
+  unfold reconcileOld
+  simp only []
+  split
+  · rename_i h
+    have : sumSpec (active l) = 0 := by simpa using h
+    dsimp only
+    simp only [sumSpec, sumAvail] at *
+    refine ⟨trivial, trivial, ?_, ?_, ?_, ?_⟩ <;> omega
+  · rename_i h
+    have hne : sumSpec (active l) ≠ 0 := by simpa using h
+    split
+    · rename_i hlim
+      have up := scaleUpOld_facts s (active l) (-scaleDownLimitForOld s (active l) nw.spec)
+      have hnil : active l ≠ [] := by
+        intro h0; rw [h0] at hne; simp [sumSpec] at hne
+      simp only [scaleDownLimitForOld, sumSpec, sumAvail, sumPods, sumBy_append, hnil, or_false] at *
+      split at up <;> omega
+    · rename_i hlim
+      split
+      · dsimp only
+        simp only [scaleDownLimitForOld, sumSpec, sumAvail] at *
+        refine ⟨trivial, trivial, ?_, ?_, ?_, ?_⟩ <;> omega
+      · rename_i hm
+        have c := cleanup_facts s (active l)
+          (min (sumSpec l + nw.spec - (s.replicas - maxUnavailV s) - (nw.spec - nw.avail))
+            (scaleDownLimitForOld s (active l) nw.spec))
+        split
+        · simp only [scaleDownLimitForOld, sumSpec, sumAvail, sumPods, sumBy_append] at *
+          omega
+        · have d := scaleDownOld_facts s (cleanup s (active l)
+            (min (sumSpec l + nw.spec - (s.replicas - maxUnavailV s) - (nw.spec - nw.avail))
+              (scaleDownLimitForOld s (active l) nw.spec))).olds nw
+          generalize (cleanup s (active l)
+            (min (sumSpec l + nw.spec - (s.replicas - maxUnavailV s) - (nw.spec - nw.avail))
+              (scaleDownLimitForOld s (active l) nw.spec))).olds = co at *
+          split
+          · simp only [scaleDownLimitForOld, sumSpec, sumAvail, sumPods, sumBy_append] at *
+            omega
+          · simp only [scaleDownLimitForOld, sumSpec, sumAvail, sumPods, sumBy_append] at *
+            omega
+
+
+/-! ### the new ReplicaSet -/
+
+/-- size `reconcileNewReplicaSet` gives to a new RS of size `n` when the old RSs total `oldSum` -/
+def newTarget (s : State) (oldSum n : Int) : Int :=
+  if n = s.replicas then n else if n > s.replicas then s.replicas else newRSNewReplicas s (oldSum + n) n
+
+theorem reconcileNew_facts (s : State) (olds : List RS) (nw : RS) :
+    (reconcileNew s olds nw).2.1.spec = newTarget s (sumSpec olds) nw.spec ∧
+    (reconcileNew s olds nw).2.1.avail = nw.avail ∧
+    (reconcileNew s olds nw).2.1.pods = nw.pods ∧
+    ((reconcileNew s olds nw).1 = true ↔ newTarget s (sumSpec olds) nw.spec ≠ nw.spec) := by
+  unfold reconcileNew newTarget
+  by_cases h1 : nw.spec = s.replicas
+  · simp [h1]
+  · have h1' : (nw.spec == s.replicas) = false := by simpa using h1
+    simp only [h1', Bool.false_eq_true, if_false, h1]
+    by_cases h2 : nw.spec > s.replicas
+    · simp only [h2, if_true, scaleAndRecord_spec, scaleAndRecord_avail, scaleAndRecord_pods]
+      simp; omega
+    · simp only [h2, if_false, scaleAndRecord_spec, scaleAndRecord_avail, scaleAndRecord_pods]
+      simp
+      exact ⟨fun h => fun h' => h h'.symm, fun h => fun h' => h h'.symm⟩
+
+theorem newRSNewReplicas_le (s : State) (cur n : Int) (h : cur > n) :
+    newRSNewReplicas s cur n ≤ max n (limit s) := by
+  unfold newRSNewReplicas
+  simp only [h, if_true]
+  split
+  · omega
+  · split <;> omega
+
+theorem newRSNewReplicas_default (s : State) (cur n : Int) (h : ¬ cur > n) :
+    newRSNewReplicas s cur n = s.replicas := by
+  unfold newRSNewReplicas; simp [h]
+
+theorem newRSNewReplicas_surge (s : State) (cur n : Int) (h : cur > n) (hup : n < newRSNewReplicas s cur n) :
+    (cur - n) + newRSNewReplicas s cur n ≤ s.replicas + maxSurgeV s := by
+  unfold newRSNewReplicas at *
+  simp only [h, if_true] at *
+  split at hup
+  · omega
+  · split at hup
+    · omega
+    · rename_i h1 h2
+      simp only [h1, h2, if_false]
+      omega
+
+theorem newRSNewReplicas_ge (s : State) (cur n : Int) (h : cur > n) (hl : limit s ≤ s.replicas) :
+    n ≤ newRSNewReplicas s cur n ∧ newRSNewReplicas s cur n ≤ max n s.replicas := by
+  unfold newRSNewReplicas
+  simp only [h, if_true]
+  split
+  · omega
+  · split <;> omega
+
+/-- the new RS the rolling path works with (existing, or created) -/
+theorem getNewRS_create (s : State) :
+    ∃ nw w, getNewRS s true = (some nw, w) ∧
+      (∀ r, s.new = some r → nw.spec = r.spec ∧ nw.avail = r.avail ∧ nw.pods = r.pods) ∧
+      (s.new = none → nw.spec = max (newRSNewReplicas s (sumSpec s.olds + 0) 0) (lowerBound s) ∧
+        nw.avail = 0 ∧ nw.pods = 0) := by
+  unfold getNewRS
+  cases hn : s.new with
+  | none => exact ⟨_, _, rfl, by simp, by simp⟩
+  | some r => exact ⟨_, _, rfl, by intro r' h; cases h; simp, by simp⟩
+
+
+/-- what one rolling sync does, in terms of sizes -/
+theorem rolling_summary (s : State) :
+    ∃ nw : RS,
+      (∀ r, s.new = some r → nw.spec = r.spec ∧ nw.avail = r.avail ∧ nw.pods = r.pods) ∧
+      (s.new = none → nw.spec = max (newRSNewReplicas s (sumSpec s.olds + 0) 0) (lowerBound s) ∧
+        nw.avail = 0 ∧ nw.pods = 0) ∧
+      ((∃ rn : RS, (rolloutRolling s).new = some rn ∧ (rolloutRolling s).olds = s.olds ∧
+          rn.spec = newTarget s (sumSpec s.olds) nw.spec ∧ rn.avail = nw.avail ∧ rn.pods = nw.pods ∧
+          rn.spec ≠ nw.spec)
+       ∨ ((rolloutRolling s).new = some nw ∧ (rolloutRolling s).olds = (reconcileOld s s.olds nw).2.1 ∧
+          newTarget s (sumSpec s.olds) nw.spec = nw.spec)) := by
+  obtain ⟨nw, w, hg, h1, h2⟩ := getNewRS_create s
+  refine ⟨nw, h1, h2, ?_⟩
+  have rn := reconcileNew_facts s s.olds nw
+  unfold rolloutRolling
+  rw [hg]
+  simp only []
+  by_cases hb : (reconcileNew s s.olds nw).1 = true
+  · left
+    simp only [hb, if_true]
+    refine ⟨_, rfl, trivial, rn.1, rn.2.1, rn.2.2.1, ?_⟩
+    rw [rn.1]; exact rn.2.2.2.mp hb
+  · right
+    have hb' : (reconcileNew s s.olds nw).1 = false := by simpa using hb
+    simp only [hb', Bool.false_eq_true, if_false]
+    refine ⟨trivial, trivial, ?_⟩
+    by_cases he : newTarget s (sumSpec s.olds) nw.spec = nw.spec
+    · exact he
+    · exact absurd (rn.2.2.2.mpr he) hb
+
+theorem sync_inScope (s : State) (h : inScope s = true) : sync s = rolloutRolling s := by
+  simp only [inScope, Bool.and_eq_true, Bool.not_eq_true'] at h
+  unfold sync
+  simp [h.1.1, h.1.2, h.2]
+
+
+theorem newTarget_ge (s : State) (o n : Int) (hl : limit s ≤ s.replicas) :
+    min n s.replicas ≤ newTarget s o n := by
+  unfold newTarget
+  split
+  · omega
+  · split
+    · omega
+    · by_cases h : o + n > n
+      · have := newRSNewReplicas_ge s (o + n) n h hl; omega
+      · rw [newRSNewReplicas_default s _ _ h]; omega
+
+/-- size of a created new RS -/
+theorem created_size (s : State) (h : inv s = true) :
+    0 ≤ max (newRSNewReplicas s (sumSpec s.olds + 0) 0) (lowerBound s) ∧
+    max (newRSNewReplicas s (sumSpec s.olds + 0) 0) (lowerBound s) ≤ max s.replicas 0 := by
+  have hR := inv_replicas s h
+  have hl := limit_bounds s hR
+  have hs := maxSurgeV_nonneg s h
+  have hlb : 0 ≤ lowerBound s ∧ lowerBound s ≤ s.replicas := by
+    unfold lowerBound; split <;> omega
+  by_cases hc : sumSpec s.olds + 0 > 0
+  · have := newRSNewReplicas_ge s _ 0 hc hl.2
+    omega
+  · rw [newRSNewReplicas_default s _ _ hc]; omega
+
+/-- one in-scope sync, in terms of the state after it -/
+theorem post_summary (s : State) (hsc : inScope s = true) :
+    ∃ nw : RS,
+      (∀ r, s.new = some r → nw.spec = r.spec ∧ nw.avail = r.avail ∧ nw.pods = r.pods) ∧
+      (s.new = none → nw.spec = max (newRSNewReplicas s (sumSpec s.olds + 0) 0) (lowerBound s) ∧
+        nw.avail = 0 ∧ nw.pods = 0) ∧
+      ((∃ rn : RS, (post s).new = some rn ∧ (post s).olds = s.olds ∧
+          rn.spec = newTarget s (sumSpec s.olds) nw.spec ∧ rn.avail = nw.avail ∧ rn.pods = nw.pods ∧
+          rn.spec ≠ nw.spec)
+       ∨ ((post s).new = some nw ∧ (post s).olds = (reconcileOld s s.olds nw).2.1 ∧
+          newTarget s (sumSpec s.olds) nw.spec = nw.spec)) := by
+  have := rolling_summary s
+  simp only [post, sync_inScope s hsc]
+  exact this
+
+
+theorem newTarget_le (s : State) (o n : Int) (ho : 0 < o) : newTarget s o n ≤ max n (limit s) := by
+  unfold newTarget
+  split
+  · omega
+  · split
+    · omega
+    · exact newRSNewReplicas_le s _ _ (by omega)
+
+theorem newTarget_surge (s : State) (o n : Int) (ho : 0 ≤ o) (hs : 0 ≤ maxSurgeV s)
+    (hup : n < newTarget s o n) : o + newTarget s o n ≤ s.replicas + maxSurgeV s := by
+  unfold newTarget at *
+  split at hup
+  · omega
+  · split at hup
+    · omega
+    · rename_i h1 h2
+      simp only [h1, h2, if_false]
+      by_cases h : o + n > n
+      · have := newRSNewReplicas_surge s _ _ h hup; omega
+      · rw [newRSNewReplicas_default s _ _ h]; omega
+
+theorem newTarget_zero_old (s : State) (n : Int) : newTarget s 0 n = s.replicas := by
+  unfold newTarget
+  split
+  · omega
+  · split
+    · rfl
+    · exact newRSNewReplicas_default s _ _ (by omega)
+
+/-- size of a created new RS outside the lower-bound region -/
+theorem created_noLB (s : State) (h : inv s = true) (hn : s.new = none) (hg : lowerBoundRegion s = false) :
+    (0 < sumSpec s.olds → max (newRSNewReplicas s (sumSpec s.olds + 0) 0) (lowerBound s) ≤ limit s) ∧
+    (0 < max (newRSNewReplicas s (sumSpec s.olds + 0) 0) (lowerBound s) →
+      sumSpec s.olds + max (newRSNewReplicas s (sumSpec s.olds + 0) 0) (lowerBound s) ≤ s.replicas + maxSurgeV s) := by
+  have hR := inv_replicas s h
+  have hl := limit_bounds s hR
+  have hs := maxSurgeV_nonneg s h
+  have ho := sumSpec_nonneg (inv_olds s h)
+  have hlb : lowerBound s = 0 := by
+    simp only [lowerBoundRegion, hn, Option.isNone_none, Bool.true_and, Bool.and_eq_false_iff,
+      beq_eq_false_iff_ne, ne_eq, decide_eq_false_iff_not] at hg
+    unfold lowerBound
+    split
+    · rfl
+    · omega
+  rw [hlb]
+  by_cases hc : sumSpec s.olds + 0 > 0
+  · have g := newRSNewReplicas_ge s _ 0 hc hl.2
+    have l := newRSNewReplicas_le s _ 0 hc
+    constructor
+    · intro _; omega
+    · intro hpos
+      have := newRSNewReplicas_surge s _ 0 hc (by omega)
+      omega
+  · rw [newRSNewReplicas_default s _ _ hc]
+    constructor
+    · intro; omega
+    · intro; omega
+
+/-- size of a created new RS inside the lower-bound region: at most one pod above the bounds -/
+theorem created_LB (s : State) (h : inv s = true) :
+    max (newRSNewReplicas s (sumSpec s.olds + 0) 0) (lowerBound s) ≤ max (if 0 < sumSpec s.olds then limit s else s.replicas) 1 ∧
+    sumSpec s.olds + max (newRSNewReplicas s (sumSpec s.olds + 0) 0) (lowerBound s)
+      ≤ max (s.replicas + maxSurgeV s) (sumSpec s.olds + 1) := by
+  have hR := inv_replicas s h
+  have hl := limit_bounds s hR
+  have hs := maxSurgeV_nonneg s h
+  have ho := sumSpec_nonneg (inv_olds s h)
+  have hlb : 0 ≤ lowerBound s ∧ lowerBound s ≤ 1 := by
+    unfold lowerBound; split <;> omega
+  by_cases hc : sumSpec s.olds + 0 > 0
+  · have g := newRSNewReplicas_ge s _ 0 hc hl.2
+    have l := newRSNewReplicas_le s _ 0 hc
+    have hpos : 0 < sumSpec s.olds := by omega
+    simp only [hpos, if_true]
+    by_cases hz : 0 < newRSNewReplicas s (sumSpec s.olds + 0) 0
+    · have := newRSNewReplicas_surge s _ 0 hc hz
+      omega
+    · omega
+  · have hz : ¬ 0 < sumSpec s.olds := by omega
+    rw [newRSNewReplicas_default s _ _ hc]
+    simp only [hz, if_false]
+    omega
+
 end RV.DepSync
